@@ -15,7 +15,7 @@ RULE = ("codepoints: every one of the 1,114,112 code points is compared with a l
         "distinct = distinct (workload, input) signatures.")
 ASSUMPTIONS = ["contents of rich/_cell_widths.py CELL_WIDTHS are the Unicode width table (trusted data)",
                "reference width = independent linear walk over that table"]
-REQUIRED = ["mon.result_poisoning", "mon.codepoint", "mon.codepoint_orders", "mon.cell_len", "mon.cache_history", "mon.set_cell_size",
+REQUIRED = ["mon.get_line_length", "mon.result_poisoning", "mon.codepoint", "mon.codepoint_orders", "mon.cell_len", "mon.cache_history", "mon.set_cell_size",
             "mon.chop_cells", "mon.adjust_line_length", "mon.split_and_crop", "mon.set_shape",
             "mon.simplify", "mon.split_lines"]
 MIN_NONTRIVIAL = {"quick": 2000, "thorough": 20000}
@@ -424,6 +424,20 @@ def wl_set_shape(ctx, rng, case_no):
     want_h = len(lines) if height is None else height
     if len(out) != want_h:
         ctx.violation("set_shape-height", dict(wit, want=want_h))
+    # the measuring helpers agree with the reference on the inputs (control segments occupy no cells) ...
+    for l in lines:
+        ctx.count("mon.get_line_length")
+        ref = sum(cellref.char_width(it[0]) for it in _flat(l) if it[0] != "CTRL")
+        if Segment.get_line_length(list(l)) != ref:
+            ctx.violation("get_line_length-wrong", dict(wit, line=_seg_repr(l), got=Segment.get_line_length(list(l)), want=ref))
+    if lines:
+        ref_w = max(sum(cellref.char_width(it[0]) for it in _flat(l) if it[0] != "CTRL") for l in lines)
+        if Segment.get_shape([list(l) for l in lines]) != (ref_w, len(lines)):
+            ctx.violation("get_shape-wrong", dict(wit, got=Segment.get_shape([list(l) for l in lines]), want=(ref_w, len(lines))))
+    # ... and report the requested shape for the shaped output
+    if out and want_h:
+        if Segment.get_shape(out) != (width, want_h):
+            ctx.violation("get_shape-of-shaped-lines-is-not-the-shape", dict(wit, got=Segment.get_shape(out)))
     for i, line in enumerate(out):
         src = _flat(lines[i]) if i < len(lines) else []
         src_cells = sum(cellref.char_width(it[0]) for it in src if it[0] != "CTRL")
